@@ -182,6 +182,10 @@ class JsonDocument(HierDictDocument):
         except (JSONDecodeError, UnicodeDecodeError, LookupError) as e:
             raise Fault('Client.JsonDecodeError', repr(e))
 
+        except RuntimeError as e:
+            # RecursionError: the document is nested too deeply
+            raise Fault('Client.JsonDecodeError', repr(e))
+
     def create_out_string(self, ctx, out_string_encoding='utf8'):
         """Sets ``ctx.out_string`` using ``ctx.out_document``."""
         if out_string_encoding is None:
